@@ -272,6 +272,8 @@ def _field(schema, f, s, fields, parents):
 
 
 def _seq(schema, seq, s, parents):
+    if len(parents) > 40:
+        raise KsyError('types nest without end')
     out, fields = [], {}
     for f in seq:
         if not (isinstance(f.get('type'), str) and _BIT.match(f.get('type'))):
